@@ -90,6 +90,9 @@ def st_project():
         mods.append(('p', None, True, draw(st.one_of(st.just(''), st_module()))))
         for name in draw(st.permutations(MODNAMES))[:n]:
             mods.append((name, 'p', False, draw(st.one_of(st_module(), st_module(), st_module(), pysource.modules(max_stmts=5)))))
+        if draw(st.integers(0, 14)) == 0:
+            # a root module named like one of the pages pydoctor writes itself
+            mods.append((draw(st.sampled_from(['index', 'classIndex', 'moduleIndex', 'nameIndex', 'undoccedSummary'])), None, False, draw(st_module())))
         if draw(st.integers(0, 3)) == 0:
             mods.append(('q', None, True, draw(st_module()).replace('p.', 'q.')))
             mods.append(('m1', 'q', False, draw(st_module())))
@@ -203,8 +206,13 @@ def invariants(s: Any, finished: bool) -> List[Tuple[str, str]]:
                 from urllib.parse import unquote
                 f = unquote(o.url)
                 if f == 'index.html' and single_root and o is s.rootobjects[0]:
+                    # the single root is index.html by design; the link <root>.html -> index.html is written as well
+                    if k != 'index' and (k + '.html') in names and names[k + '.html'] == '<summary page>':
+                        out.append(('I8-page-names:summary-page', 'the link %r to the page of the single root replaces a summary page' % (k + '.html')))
                     continue
-                if f in names:
+                if f in names and names[f] == '<summary page>':
+                    out.append(('I8-page-names:summary-page', 'the page of %r shares the file name %r with a summary page' % (k, f)))
+                elif f in names:
                     out.append(('I8-page-names', 'pages of %r and %s share the file name %r' % (k, names[f], f)))
                 names[f] = repr(k)
     seen = set()
